@@ -147,7 +147,8 @@ class VM:
 
         # Exception handling
         self.exception: Optional[JSValue] = None
-        self.exception_handlers: List[Tuple[int, int]] = []  # (frame_idx, catch_ip)
+        # (frame_idx, catch_ip, operand stack depth when the try block was entered)
+        self.exception_handlers: List[Tuple[int, int, int]] = []
 
     def run(self, compiled: CompiledFunction) -> JSValue:
         """Run compiled bytecode and return result."""
@@ -667,6 +668,7 @@ class VM:
         elif op == OpCode.RETURN:
             result = self.stack.pop() if self.stack else UNDEFINED
             popped_frame = self.call_stack.pop()
+            self._discard_frame_state(popped_frame)
             # For constructor calls, return the new object unless result is an object
             if popped_frame.is_constructor_call:
                 if not isinstance(result, JSObject):
@@ -675,6 +677,7 @@ class VM:
 
         elif op == OpCode.RETURN_UNDEFINED:
             popped_frame = self.call_stack.pop()
+            self._discard_frame_state(popped_frame)
             # For constructor calls, return the new object
             if popped_frame.is_constructor_call:
                 self.stack.append(popped_frame.new_target)
@@ -695,7 +698,9 @@ class VM:
 
         elif op == OpCode.TRY_START:
             # arg is the catch handler offset
-            self.exception_handlers.append((len(self.call_stack) - 1, arg))
+            self.exception_handlers.append(
+                (len(self.call_stack) - 1, arg, len(self.stack))
+            )
 
         elif op == OpCode.TRY_END:
             if self.exception_handlers:
@@ -818,6 +823,14 @@ class VM:
 
         else:
             raise NotImplementedError(f"Opcode not implemented: {op.name}")
+
+    def _discard_frame_state(self, frame: CallFrame) -> None:
+        """A returning frame leaves nothing behind: drop the operands it still had
+        pending and the exception handlers of try blocks it returned out of."""
+        del self.stack[frame.bp :]
+        depth = len(self.call_stack)
+        while self.exception_handlers and self.exception_handlers[-1][0] >= depth:
+            self.exception_handlers.pop()
 
     def _get_name(self, frame: CallFrame, index: int) -> str:
         """Get a name from the name table."""
@@ -2502,11 +2515,14 @@ class VM:
                 exc.set("columnNumber", column)
 
         if self.exception_handlers:
-            frame_idx, catch_ip = self.exception_handlers.pop()
+            frame_idx, catch_ip, stack_depth = self.exception_handlers.pop()
 
             # Unwind call stack
             while len(self.call_stack) > frame_idx + 1:
                 self.call_stack.pop()
+
+            # Discard operands of the computations the throw abandoned
+            del self.stack[stack_depth:]
 
             # Jump to catch handler
             frame = self.call_stack[-1]
